@@ -300,6 +300,9 @@ def cases(tier):
     for topology, faulty in (('free', 2), ('free', 0), ('pair', 1), ('chain', 2)):
         for fk, req, index in (('raise:held', 'step', 1), ('raise:held', 'step', 2), ('raise:plain:held:RuntimeError', 'step', 1), ('raise:held@3', 'step', 1)):
             out.append((topology, faulty, fk, req, index, False))
+    # the connection closes while the simulator's process keeps running (known finding F24)
+    out.append(('pair', 0, 'close', 'step', 1, True))
+    out.append(('chain', 1, 'close', 'get_data', 0, True))
     # a protocol violation instead of a failure: the simulator answers step() with a next step that is not later than the current
     # one - the scheduler ends the run with a SimulationError, and the offender (alive and well) is stopped like the others
     for topology, faulty, index, rem in (('pair', 0, 1, False), ('pair', 1, 0, False), ('chain', 1, 2, False), ('free', 2, 1, False), ('pair', 0, 1, True), ('chain', 2, 0, True)):
@@ -324,14 +327,14 @@ def run(out, info, tier, seed):
     out.checker_cmd = 'make -C coq && coqc -Q coq MV coq/Props/C14.v'
     out.trusted_base = common.COMMON_TRUSTED + ['modelled: only the exception flow World.run/scheduler.run/shutdown over oracle outcomes (Ext/Faults.v); oracle assumption: every stop() returns',
                                                 'NOT modelled, observed by fault injection only: elapsed time, process reaping, sockets, asyncio task garbage']
-    out.assumptions = ['fault kind "connection close while the process keeps running" is exercised only through process exit (the socket closes with the process)']
+    out.assumptions = ['a subprocess simulator that closes its connection and keeps running is exercised with a process that closes every descriptor above 2 and sleeps (known finding F24)']
     obl, log, broken = common.check_props_file('C14', info)
     for o in obl: out.add_obligation(o['name'], o['ok'], o['assumptions'])
     bad = common.hygiene()
     out.add_obligation('hygiene: no Admitted/admit/Axiom/Parameter/Unset Guard in coq/', not bad, '; '.join(bad[:5]))
     if broken: out.notes.append('broken files: ' + ', '.join(broken) + '\n' + log[-1500:])
     kf = {f['id']: f for f in common.known_findings('C14')}
-    violations = []; n_eval = 0; hist = collections.Counter(); samples = []; zombies = 0; nontriv = 0
+    violations = []; n_eval = 0; hist = collections.Counter(); samples = []; zombies = 0; nontriv = 0; f24 = []
     for (topology, faulty, fkind, req, index, remote) in cases(tier):
         n = 2 if topology in ('pair', 'trig') else 3
         res = one(topology, faulty, fkind, req, index, remote)
@@ -340,12 +343,18 @@ def run(out, info, tier, seed):
         zombies += res['zombie_children']
         d = dict(kind='fault', topology=topology, faulty=faulty, fault=fkind, request=req, index=index, remote=remote)
         fails = monitor(n, faulty, remote, fkind, res)
+        if fails and fkind == 'close' and 'F24' in kf and all('left running' in f for f in fails) and len(res['live_children']) == 1:
+            # known finding F24: the simulator lost its connection but its process goes on running; mosaik keeps no handle on the
+            # processes it starts (the documented stop_timeout is unused), so nothing terminates it.  Matched narrowly: this
+            # fault kind, and the ONLY complaint is the one process left running
+            f24.append(fails[0]); fails = []
         if fails: violations.append(dict(d, observed=fails, result=res))
         if req != 'setup_done': nontriv += 1
         if len(samples) < 2: samples.append(dict(d, result=res))
         if hist['HANG'] >= 4:
             out.notes.append('stopped after 4 runs that did not terminate (each costs the 6 s watchdog)'); break
     for v in violations[:1]: out.violations.append(v)
+    if f24: out.known_hits.append((kf['F24'], f'{len(f24)} run(s) in which a subprocess simulator closed its connection and kept running: {f24[0]}'))
     if zombies and 'F16z' in kf:
         out.known_hits.append((kf['F16z'], f'{zombies} simulator child process(es) were never waited for (zombies until the interpreter exits)'))
     elif zombies:
